@@ -157,14 +157,18 @@ SynthSchema == [CtX25519 |-> << F("ct", "ct_x25519", "", FALSE, "") >>,
                 StrKey   |-> << F("s", "strkey", "", FALSE, "") >>]
 FullSchema == Schema @@ SynthSchema
 
-RECURSIVE PathsOf(_, _, _)
-PathsOf(type, choice, depth) ==
+(* A repeated field whose elements have fields of their own is entered through its first element   *)
+(* and - when `last` is set - also through its last element (path step "<name>@last").              *)
+RECURSIVE PathsOf(_, _, _, _)
+PathsOf(type, choice, depth, last) ==
     IF depth = 0 \/ type \notin DOMAIN FullSchema THEN {}
-    ELSE UNION { LET f == FullSchema[type][i] IN
+    ELSE UNION { LET f == FullSchema[type][i]
+                     steps == IF f.rep /\ last THEN {f.n, f.n \o "@last"} ELSE {f.n} IN
                    IF f.oneof # "" /\ (type \notin DOMAIN choice \/ choice[type] # f.n) THEN {}
                    ELSE {[path |-> <<f.n>>, f |-> f]}
                         \cup (IF HasInner(f)
-                              THEN { [path |-> <<f.n>> \o p.path, f |-> p.f] : p \in PathsOf(f.t, choice, depth - 1) }
+                              THEN { [path |-> <<st>> \o p.path, f |-> p.f]
+                                     : <<st, p>> \in steps \X PathsOf(f.t, choice, depth - 1, last) }
                               ELSE {})
                : i \in 1..Len(FullSchema[type]) }
 
@@ -201,7 +205,7 @@ KindOps(k) ==
                              "parent-self", "id-garbage", "ref-inbatch-orphan"}
       [] k = "snap_id"   -> {"id-empty", "id-dangling", "snap-trimmed", "snap-nonsnapshot", "id-garbage", "ref-inbatch-orphan"}
       [] k = "cid"       -> {"cid-empty", "cid-garbage", "cid-of-other-content"}
-      [] k = "varint"    -> {"varint-max", "varint-zero", "varint-flip"}
+      [] k = "varint"    -> {"varint-max", "varint-zero", "varint-flip", "varint-2e20", "varint-2e22", "varint-2e24"}
       [] k = "enum"      -> {"varint-max", "enum-unknown"}
       [] OTHER           -> {}
 
@@ -220,6 +224,7 @@ FrameOps(frame) ==
 OpClass(op) ==
     CASE op \in {"trunc-before", "trunc-tag", "trunc-len", "trunc-mid", "cut-before", "cut-tag", "cut-len", "cut-mid",
                  "frame-hdr-truncated", "frame-body-truncated", "snappy-hdr-truncated", "snappy-body-truncated", "str-truncated", "prefix-sweep"} -> "truncate"
+      [] op \in {"varint-2e20", "varint-2e22", "varint-2e24"} -> "length-field"   \* a number the receiver may use as a size
       [] op \in {"len-minus1", "len-plus1", "len-huge", "len-overflow", "frame-size-minus1", "frame-size-plus1",
                  "snappy-len-plus1", "snappy-len-minus1", "lie-count-plus1000", "lie-count-minus1"} -> "length-field"
       [] op \in {"frame-size-limit-plus1", "frame-size-huge", "snappy-len-huge", "grow-64k", "lie-huge-elements"} -> "oversize"
@@ -250,7 +255,10 @@ IsCut(op) == op \in {"cut-before", "cut-tag", "cut-len", "cut-mid"}
 Reseals(op) == IF IsCut(op) THEN {FALSE} ELSE IF Tier = "thorough" THEN {TRUE, FALSE} ELSE {TRUE}
 
 (* the field paths of every base message, computed once per (message type, oneof choice) *)
-PathTable == [tc \in { <<g.top, g.choice>> : g \in Groups } |-> PathsOf(tc[1], tc[2], MaxDepth)]
+(* the last-element paths: everywhere in the thorough tier, for the small request / reply messages in quick *)
+LastInQuick == {"headsync.HandleRangeRequest", "keyvalue.HandleRangeRequest", "ldiff.Diff", "pubsub.HandleMessage", "space.SpacePull"}
+WithLast(g) == Tier = "thorough" \/ g.ep \in LastInQuick
+PathTable == [tc \in { <<g.top, g.choice, WithLast(g)>> : g \in Groups } |-> PathsOf(tc[1], tc[2], MaxDepth, tc[3])]
 
 (* the quick tier leaves out operators whose effect another operator of the same class already   *)
 (* has (the stream cuts are particular prefixes of the prefix sweep)                              *)
@@ -258,7 +266,7 @@ QuickSkip == {"cut-before", "cut-tag", "cut-len", "cut-mid", "trunc-tag", "trunc
               "one-byte", "varint-flip", "varint-zero", "key-long-33", "key-unknown-type", "key-raw-unwrapped",
               "key-other", "sig-long-65", "sig-short-63", "ct-short-47", "ct-short-27", "ct-exact-12", "ct-exact-32",
               "ct-for-other-key", "id-garbage", "cid-garbage", "str-bad-checksum", "tag-group", "tag-overlong", "rep-rotate", "pt-one-byte", "pt-garbage",
-              "keydata-len-1", "keydata-len-64"}
+              "keydata-len-1", "keydata-len-64", "varint-2e20"}
 OpsOf(f) == (StructOps(f) \cup KindOps(f.k)) \ (IF Tier = "quick" THEN QuickSkip ELSE {})
 
 (* operators that need something the base message of the group does not have:                     *)
@@ -278,7 +286,7 @@ WholeOps == {"prefix-sweep", "valid", "empty-message", "garbage-message"}
 CasesFor(g) ==
     { [path |-> p.path, kind |-> p.f.k, op |-> op, cls |-> OpClass(op), reseal |-> r]
         : <<p, op, r>> \in UNION { UNION { {p} \X {op} \X Reseals(op) : op \in { o \in OpsOf(p.f) : Applicable(g, o) } }
-                                   : p \in PathTable[<<g.top, g.choice>>] } }
+                                   : p \in PathTable[<<g.top, g.choice, WithLast(g)>>] } }
     \cup { [path |-> <<>>, kind |-> "message", op |-> op, cls |-> OpClass(op), reseal |-> FALSE] : op \in WholeOps }
     \cup { [path |-> <<>>, kind |-> "frame", op |-> op, cls |-> OpClass(op), reseal |-> FALSE] : op \in FrameOps(g.frame) }
 
